@@ -32,6 +32,8 @@ def gen_case(rng, idx, tier):
         cls = "plain"
     big = cls == "big"
     pmax = 2 if big else 3
+    if prog == "integrate" and not big and cls != "integral":
+        pmax = 7  # the default rule has degree+1 nodes: larger rules than the usual examples
     if cls == "integral":
         U = gen.integer_kv(rng, pmax=3, nintmax=2)
         p, n = ref.wellformed(U)
@@ -65,7 +67,8 @@ def gen_case(rng, idx, tier):
     for x0, x1 in zip(ks, ks[1:]):
         fitnodes += ref.sample_points(x0, x1, p + 1)
     return {"A": cv.enc_curve(A, "frac"), "B": cv.enc_curve(B, "frac"), "nodes": lib.enc(nodes), "prog": prog, "cls": cls, "t": rng.choice([1, 1, 2]),
-            "params": lib.enc(params), "fitnodes": lib.enc(fitnodes), "order": rng.choice(["exact-first", "exact-last"])}
+            "params": lib.enc(params), "fitnodes": lib.enc(fitnodes), "order": rng.choice(["exact-first", "exact-last"]),
+            "nnodes": rng.choice([None, None, 8, 9, 11]) if prog == "integrate" else None}
 
 
 class Pt:
@@ -190,7 +193,8 @@ def run_program(prog, case, nt, minimal=False):
             S.fit_points(pts, zs)
             return S
         if prog == "integrate":
-            return Integrate.scalar(A)
+            nn = case.get("nnodes")
+            return Integrate.scalar(A) if not nn or nn <= A.degree else Integrate.scalar(A, nnodes=nn)
         raise ValueError(prog)
 
     return call(body)
